@@ -1,6 +1,7 @@
 package app
 
 import (
+	"bytes"
 	"encoding/json"
 	"fmt"
 	"io"
@@ -25,6 +26,7 @@ func (s *Server) laURLHandlerFunc(w http.ResponseWriter, r *http.Request) {
 		msg := fmt.Sprintf("URL does not end with %s", laURLSuffix)
 		log.Error(msg)
 		http.Error(w, msg, http.StatusBadRequest)
+		return
 	}
 	// Parse JSON request body which looks like {"kids":["nrQFDeRLSAKTLifXUIPiZg"],"type":"temporary"}
 	// We only care about the kids array.
@@ -41,7 +43,7 @@ func (s *Server) laURLHandlerFunc(w http.ResponseWriter, r *http.Request) {
 	if err != nil {
 		msg := "Unmarshal error"
 		log.Error(msg, "err", err)
-		http.Error(w, msg, http.StatusInternalServerError)
+		http.Error(w, msg, http.StatusBadRequest)
 		return
 	}
 	log.Debug("laURL request", "data", reqData)
@@ -53,7 +55,13 @@ func (s *Server) laURLHandlerFunc(w http.ResponseWriter, r *http.Request) {
 		if err != nil {
 			msg := "id16FromBase64 error"
 			log.Error(msg, "err", err)
-			http.Error(w, msg, http.StatusInternalServerError)
+			http.Error(w, msg, http.StatusBadRequest)
+			return
+		}
+		if !bytes.HasPrefix(kid16[:], kidStart) { // kidToKey panics for other key IDs
+			msg := "unknown key ID"
+			log.Error(msg, "kid", kid)
+			http.Error(w, msg, http.StatusBadRequest)
 			return
 		}
 		key := kidToKey(kid16)
